@@ -17,9 +17,24 @@ Part 3: per builder, for EVERY client value that passes the builder's validation
         (the full statement was FALSE, minimal witness) and `…Old_partial` (true for values without a path separator),
         which is what the new theorems rest on: the validator now coded (`simpleName`) implies that guard.
 
-NOT proved: that this list of builders is complete (a listing aid, not a theorem); symlinks (the model is lexical).
+Part 4: the COMPOSITION (Model/PathFlow.lean): a handler is a pipeline "pre-process, validate, post-process, join".  For
+        EVERY pipeline: if the join is confined for every validated value after the post-processing, the pipeline is
+        confined — whatever happens BEFORE validation; in particular when nothing happens between validation and use
+        (`pipe_confined_id`).  The handlers of /repo are such pipelines (`…_is_pipe`, tied to the source by the call-order
+        facts `C19.<function>.flow`).  Percent-decoding put between check and use breaks it (`decode_after_validate_counterexample`),
+        the same decoding before the check does not (`decode_before_validate_confined`).
+Part 5: metrics tag keys: the check is stateless, so EVERY datapoint of EVERY series (any number of samples sent with one
+        TagsHolder) is either rejected or names only files inside the data dir (`confined_series`); the memoised check
+        with the flag set before the walk is refuted (`memo_series_counterexample`).
+Part 6: delete-index: for EVERY history of create / delete requests (any strings, any expansion of the request value into
+        candidate names) every directory removed is inside the data dir (`confined_index_history`); without the
+        membership test it is not (`deleteIndexNoGate_counterexample`).
+
+NOT proved: that this list of builders is complete (a listing aid, not a theorem; narrowed by the end-to-end suite `confine`,
+which drives every name-carrying route of a real server inside a sandbox); symlinks (the model is lexical).
 -/
 import SigModel.Model.Path
+import SigModel.Model.PathFlow
 import SigModel.Lemmas.C19
 import SigModel.Lemmas.C19b
 
@@ -374,5 +389,207 @@ example : (lookupUpload [['d']] "my-lookup_v1.2.csv".toList).isSome ∧ (baseSeg
 /-- and these are refused -/
 example : lookupUpload [['d']] "../../x.csv".toList = none ∧ inputlookup [['d']] "a\\..\\x.csv".toList = none ∧
     aliasFile [['d']] ['H'] "..".toList = none ∧ baseSegDir [['d']] ['H'] "a/b".toList = none ∧ tagsTreeFile [['d']] ['H'] [] = none := by decide
+
+/-! ## Part 4 — validate-then-use pipelines -/
+
+/-- the full statement for a pipeline: whatever value arrives, the path it is turned into is inside `base` -/
+def ConfinedPipe (base : NPath) (p : Pipe) : Prop := ∀ v q, p.run v = some q → within base q
+
+/-- C19.4a  For EVERY pipeline: if the join of the post-processed value is confined for every value the validator accepts,
+    the pipeline is confined — no matter what is done to the value BEFORE it is validated. -/
+theorem pipe_confined (base : NPath) (p : Pipe)
+    (hb : ∀ w, p.validate w = true → within base (p.build (p.post w))) : ConfinedPipe base p := by
+  intro v q h
+  unfold Pipe.run at h
+  simp only at h
+  split at h
+  · rename_i hv
+    simp at h; subst h
+    exact hb _ hv
+  · simp at h
+
+/-- C19.4b  …in particular when the transformation between validation and use is the identity: the validator's guarantee
+    about the string it saw IS the guarantee about the string that is joined. -/
+theorem pipe_confined_id (base : NPath) (p : Pipe) (hid : p.post = id)
+    (hb : ∀ w, p.validate w = true → within base (p.build w)) : ConfinedPipe base p :=
+  pipe_confined base p (by intro w hw; rw [hid]; exact hb w hw)
+
+/-- the handlers ARE these pipelines (same function, for every value) -/
+theorem lookupUpload_is_pipe (d : List Seg) (v : Str) : lookupUpload d v = (uploadPipe d).run v := by
+  unfold lookupUpload lookupUploadOld Pipe.run uploadPipe
+  by_cases hv : simpleName v = true
+  · have hne : v ≠ [] := by
+      intro h; subst h; simp [simpleName] at hv
+    simp [hv, hne]
+  · simp [hv]
+
+theorem inputlookup_is_pipe (d : List Seg) (v : Str) : inputlookup d v = (inputlookupPipe d).run v := by
+  unfold inputlookup inputlookupOld Pipe.run inputlookupPipe isCsvName
+  by_cases hv : simpleName v = true <;> by_cases he : (endsWith v csvExt = true ∨ endsWith v csvGzExt = true) <;> simp [hv, he]
+
+theorem aliasFile_is_pipe (d : List Seg) (H : Seg) (v : Str) : aliasFile d H v = (aliasPipe d H).run v := by
+  unfold aliasFile aliasFileOld Pipe.run aliasPipe
+  by_cases hv : simpleName v = true
+  · have hne : v ≠ [] := by
+      intro h; subst h; simp [simpleName] at hv
+    simp [hv, hne]
+  · simp [hv]
+
+theorem baseSegDir_is_pipe (d : List Seg) (H : Seg) (v : Str) : baseSegDir d H v = (segDirPipe d H).run v := by
+  unfold baseSegDir baseSegDirOld Pipe.run segDirPipe
+  by_cases hv : simpleName v = true <;> simp [hv]
+
+theorem tagsTreeFile_is_pipe (d : List Seg) (H : Seg) (v : Str) : tagsTreeFile d H v = (tagKeyPipe d H).run v := by
+  unfold tagsTreeFile tagsTreeFileOld Pipe.run tagKeyPipe
+  by_cases hv : simpleName v = true <;> simp [hv]
+
+/-- C19.4c  the lookup upload as coded (check, then only the extension append, then join) is confined -/
+theorem confined_uploadPipe (d : List Seg) (H : Seg) (hs : Setup d H) : ConfinedPipe (dataDir d) (uploadPipe d) :=
+  pipe_confined _ _ (by
+    intro w hw
+    exact Lemmas.C19.confined_core d hs.1 ["lookups".toList, []] [] (uploadName w)
+      (Lemmas.C19.uploadName_noSlash (simpleName_guard hw)) (by decide) (by simp) 0 (by decide))
+
+/-- what url.PathUnescape makes of a name the validator accepts -/
+example : simpleName "..%2F..%2Fx.csv".toList = true ∧ pctDecode "..%2F..%2Fx.csv".toList = some "../../x.csv".toList := by decide
+example : pctDecode "%zz".toList = none ∧ pctDecode "a%2".toList = none ∧ pctDecode "a+b%41".toList = some "a+bA".toList := by decide
+
+/-- C19.4d  percent-decoding BETWEEN the check and the join (seeded change C19-1): the full statement is FALSE — the name
+    `..%2F..%2Fx.csv` passes the check and lands beside the data dir. -/
+theorem decode_after_validate_counterexample : ¬ ConfinedPipe (dataDir [['d']]) (uploadPipeDecodeAfter [['d']]) := by
+  intro h
+  exact absurd (h "..%2F..%2Fx.csv".toList ⟨true, ["x.csv".toList]⟩ (by decide)) (by decide)
+
+/-- C19.4e  the same decoding done BEFORE the check is harmless: the validator then sees the string that is joined. -/
+theorem decode_before_validate_confined (d : List Seg) (H : Seg) (hs : Setup d H) :
+    ConfinedPipe (dataDir d) (uploadPipeDecodeBefore d) :=
+  pipe_confined _ _ (by
+    intro w hw
+    exact Lemmas.C19.confined_core d hs.1 ["lookups".toList, []] [] (uploadName w)
+      (Lemmas.C19.uploadName_noSlash (simpleName_guard hw)) (by decide) (by simp) 0 (by decide))
+
+example : (uploadPipeDecodeBefore [['d']]).run "..%2F..%2Fx.csv".toList = none ∧
+    (uploadPipeDecodeBefore [['d']]).run "my%20hosts.csv".toList = some ⟨true, [['d'], "lookups".toList, "my hosts.csv".toList]⟩ := by decide
+
+/-! ## Part 5 — metrics: every datapoint of every series -/
+
+/-- C19.5a  EVERY datapoint of EVERY series: with any tag keys and any number `n` of samples sent with one TagsHolder, each
+    sample is either rejected or every tags-tree file it names is inside the data dir. -/
+theorem confined_series (d : List Seg) (H : Seg) (hs : Setup d H) (keys : List Str) (n : Nat) :
+    ∀ r ∈ encodeSeries d H keys n, ∀ ps, r = some ps → ∀ p ∈ ps, within (dataDir d) p := by
+  intro r hr ps hps p hp
+  unfold encodeSeries at hr
+  have hr' := (List.mem_replicate.mp hr).2
+  subst hr'
+  unfold encodeDatapoint at hps
+  split at hps
+  · rename_i hk
+    simp at hps; subst hps
+    simp only [List.mem_filterMap] at hp
+    obtain ⟨k, hkm, hkp⟩ := hp
+    have hsk : simpleName k = true := by
+      unfold checkTagKeys at hk
+      exact List.all_eq_true.mp hk k hkm
+    exact tagsTreeFileOld_partial d H hs k (simpleName_guard hsk) p hkp
+  · simp at hps
+
+/-- C19.5b  the verdict does not depend on the position of the sample in the series (the check keeps no state). -/
+theorem series_uniform (d : List Seg) (H : Seg) (keys : List Str) (n : Nat) :
+    ∀ r ∈ encodeSeries d H keys n, r = encodeDatapoint d H keys := by
+  intro r hr
+  exact (List.mem_replicate.mp hr).2
+
+/-- the statement of C19.5a for the memoised check -/
+def ConfinedMemo : Prop := ∀ (d : List Seg) (H : Seg) (keys : List Str) (n : Nat), Setup d H →
+    ∀ r ∈ encodeSeriesMemo d H keys n false, ∀ ps, r = some ps → ∀ p ∈ ps, within (dataDir d) p
+
+/-- C19.5c  remembering "keys already checked" in the holder, with the flag set before the walk (seeded change C19-3): FALSE —
+    the second sample of a series with the key `../../../../../../x` is accepted and names a file beside the data dir. -/
+theorem memo_series_counterexample : ¬ ConfinedMemo := by
+  intro h
+  exact absurd (h [['d']] ['H'] ["../../../../../../x".toList] 2 setup_example
+    (some [⟨true, [['x']]⟩]) (by decide) [⟨true, [['x']]⟩] rfl ⟨true, [['x']]⟩ (by decide)) (by decide)
+
+example : encodeSeries [['d']] ['H'] ["host".toList, "../x".toList] 3 = [none, none, none] := by decide
+example : (encodeSeries [['d']] ['H'] ["host".toList] 2).all Option.isSome = true := by decide
+
+/-! ## Part 6 — delete-index -/
+
+/-- the table invariant: every stored index name passed the validator -/
+def TableOK (table : List Str) : Prop := ∀ t ∈ table, simpleName t = true
+
+theorem addIndex_ok (table : List Str) (v : Str) (h : TableOK table) : TableOK (addIndex table v) := by
+  unfold addIndex
+  split
+  · rename_i hv
+    intro t ht
+    simp at ht
+    rcases ht with ht | ht
+    · exact ht ▸ hv
+    · exact h t ht
+  · exact h
+
+theorem deleteIndex_ok (d : List Seg) (H : Seg) (table cands : List Str) (h : TableOK table) :
+    TableOK (deleteIndex d H table cands).2 := by
+  intro t ht
+  unfold deleteIndex at ht
+  simp at ht
+  exact h t ht.1
+
+/-- C19.6a  one delete request: for EVERY list of candidate names the request value is expanded to, every directory removed is
+    inside the data dir, provided the table holds validated names only. -/
+theorem confined_deleteIndex (d : List Seg) (H : Seg) (hs : Setup d H) (table cands : List Str) (h : TableOK table) :
+    ∀ p ∈ (deleteIndex d H table cands).1, within (dataDir d) p := by
+  intro p hp
+  unfold deleteIndex at hp
+  simp only [List.mem_map, List.mem_filter] at hp
+  obtain ⟨c, ⟨_, hct⟩, hcp⟩ := hp
+  have hc : simpleName c = true := h c (by simpa using hct)
+  subst hcp
+  have hH := hs.2
+  exact Lemmas.C19.confined_core d hs.1 [H, "final".toList] [[]] c (simpleName_guard hc)
+    (by intro s hm; simp at hm; rcases hm with hm | hm <;> subst hm <;> first | exact hH.2.2.2 | decide)
+    (by simp) 1
+    (by rw [Lemmas.C19.walk_plain hH, Lemmas.C19.walk_plain (by decide)]; rfl)
+
+/-- C19.6b  EVERY history of create and delete requests, starting from any table of validated names: every directory removed
+    on the way is inside the data dir, and the table still holds validated names only. -/
+theorem confined_index_history (d : List Seg) (H : Seg) (hs : Setup d H) :
+    ∀ (ops : List IndexOp) (table : List Str), TableOK table →
+      (∀ p ∈ (runIndexOps d H table ops).1, within (dataDir d) p) ∧ TableOK (runIndexOps d H table ops).2 := by
+  intro ops
+  induction ops with
+  | nil => intro table h; exact ⟨by simp [runIndexOps], by simpa [runIndexOps] using h⟩
+  | cons op r ih =>
+    intro table h
+    cases op with
+    | create v =>
+      simp only [runIndexOps]
+      exact ih _ (addIndex_ok table v h)
+    | delete c =>
+      simp only [runIndexOps]
+      have h1 := confined_deleteIndex d H hs table c h
+      have h2 := ih _ (deleteIndex_ok d H table c h)
+      constructor
+      · intro p hp
+        simp only [List.mem_append] at hp
+        rcases hp with hp | hp
+        · exact h1 p hp
+        · exact h2.1 p hp
+      · exact h2.2
+
+/-- the statement of C19.6a for delete-index without the membership test -/
+def ConfinedNoGate : Prop := ∀ (d : List Seg) (H : Seg) (table cands : List Str), Setup d H → TableOK table →
+    ∀ p ∈ (deleteIndexNoGate d H table cands).1, within (dataDir d) p
+
+/-- C19.6c  removing the directories of names that are NOT in the table (seeded change C19-2): FALSE — the request value
+    `../../../victim` names a directory beside the data dir. -/
+theorem deleteIndexNoGate_counterexample : ¬ ConfinedNoGate := by
+  intro h
+  exact absurd (h [['d']] ['H'] [] ["../../../victim".toList] setup_example (by intro t ht; simp at ht)
+    ⟨true, ["victim".toList]⟩ (by decide)) (by decide)
+
+example : (runIndexOps [['d']] ['H'] [] [.create "logs".toList, .create "../x".toList, .delete ["logs".toList, "../../../victim".toList]]) =
+    ([⟨true, [['d'], ['H'], "final".toList, "logs".toList]⟩], []) := by decide
 
 end SigModel.Props.C19
